@@ -15,7 +15,7 @@ pub fn run(n: usize, rng: &mut Rng, rep: &mut Report) {
     for _ in 0..n {
         let c = cfg::sample(rng, false, true);
         let d = match rng.below(8) {
-            0 => { let k = rng.range(1, 40); doc::adversarial(rng, k) }
+            0 => if rng.chance(1, 5) { doc::counter_boundary(rng) } else { let k = rng.range(1, 40); doc::adversarial(rng, k) }
             _ => doc::any_doc(rng),
         };
         cases.push((c, d));
